@@ -58,9 +58,9 @@ func (r *rng) rawMod(m *big.Int, allowNonCanon bool) limbs {
 	}
 }
 
-func (r *rng) feRaw() limbs  { return r.rawMod(bigP, true) }
+func (r *rng) feRaw() limbs   { return r.rawMod(bigP, true) }
 func (r *rng) feCanon() limbs { return r.rawMod(bigP, false) }
-func (r *rng) scRaw() limbs  { return r.rawMod(bigN, true) }
+func (r *rng) scRaw() limbs   { return r.rawMod(bigN, true) }
 func (r *rng) scCanon() limbs { return r.rawMod(bigN, false) }
 
 // scalar values (canonical integers) with the edge classes of C01/C14
@@ -500,8 +500,7 @@ func genMap(e *emitter, r *rng, n int) {
 		case 2, 3:
 			e.line("PT.map", u)
 		case 4:
-			v := showL(r.feCanon())
-			e.line("PT.h2g", u, v)
+			e.line("PT.map", u)
 		case 5:
 			// a point of E' obtained from the map, then the isogeny alone is exercised through PT.map; raw garbage through PT.iso
 			e.line("PT.iso", argsP(rawPt{r.feCanon(), r.feCanon(), montP(big1)}))
@@ -740,6 +739,37 @@ func genChosenU(e *emitter, r *rng, n int) {
 	}
 }
 
+// scripted entropy streams for Scalar.Random: blocks equal to 0 or n (skipped), >= n (reduced), short streams (panic)
+func genRnd(e *emitter, r *rng, n int) {
+	blk := func(v *big.Int) []byte { b := make([]byte, 32); v.FillBytes(b); return b }
+	for guard := 0; e.n < n && guard < 200*n+1000; guard++ {
+		var data []byte
+		nblocks := 1 + r.intn(4)
+		for i := 0; i < nblocks; i++ {
+			switch c := r.intn(12); {
+			case c < 3:
+				data = append(data, blk(big.NewInt(0))...)
+			case c < 5:
+				data = append(data, blk(bigN)...)
+			case c < 6:
+				data = append(data, blk(new(big.Int).Add(bigN, big.NewInt(int64(1+r.intn(3)))))...)
+			case c < 7:
+				data = append(data, blk(new(big.Int).Sub(bigR, big1))...)
+			case c < 8:
+				data = append(data, blk(new(big.Int).Sub(bigN, big1))...)
+			case c < 9:
+				data = append(data, blk(big.NewInt(int64(1+r.intn(3))))...)
+			default:
+				data = append(data, r.bytes32Edge(bigN)...)
+			}
+		}
+		if r.intn(3) == 0 { // cut the stream short: the source fails in the middle of a block
+			data = data[:r.intn(len(data))]
+		}
+		e.line("RND", showB(data), fmt.Sprint([]int{0, 1, 7, 31, 32, 33}[r.intn(6)]))
+	}
+}
+
 func genH2S(e *emitter, r *rng, n int) {
 	for guard := 0; e.n < n && guard < 200*n+1000; guard++ {
 		e.line("H2C.h2s", showB(r.msg()), showB(r.dst(true)))
@@ -861,6 +891,8 @@ func genOps(family string, seed uint64, n int) {
 		genH2C(e, r, n)
 	case "h2s":
 		genH2S(e, r, n)
+	case "rnd":
+		genRnd(e, r, n)
 	case "chosenu":
 		genChosenU(e, r, n)
 	case "history":
